@@ -125,6 +125,21 @@ def feasible_entries(P, ev, variants):
     return out
 
 
+def block_scope_order(P, res, rule="BLOCK-SCOPE-ORDER"):
+    """eval_block opens the new scope before it binds anything: push_binding_block dominates every add_new, so the
+    queued bindings (match payloads, the for variable) land in the block being entered, not in the enclosing one."""
+    ebk = P.require_fn("eval::eval_block")
+    pushes = [bi for bi, t in ebk.calls() if (M.callee_name(t) or "").endswith("push_binding_block")]
+    adds = [bi for bi, t in ebk.calls() if (M.callee_name(t) or "").endswith("Bindings::add_new")]
+    if pushes and adds and all(any(ebk.dominates(pb, ab) for pb in pushes) for ab in adds):
+        res.ok(rule, "eval_block: push_binding_block dominates every Bindings::add_new (%d)" % len(adds))
+    else:
+        res.bad(rule, "eval::eval_block # bind-before-push",
+                "eval_block binds the queued variables before it pushes the block they belong to (push sites=%d, add_new sites=%d): "
+                "they are installed in the enclosing block and stay visible after the block ends (and at top level survive :abort)"
+                % (len(pushes), len(adds)), ebk.loc())
+
+
 def run(ctx, res):
     P = ctx.P
     ev = P.require_fn("eval::eval_expr")
@@ -310,6 +325,7 @@ def run(ctx, res):
         r = ebk.root_of(t["args"][0], through_named=True)
         if r[0] == "place" and ebk.field_path(r[1])[-1:] == ["bindings_next_block"]:
             reads.append((bi, (M.callee_name(t) or "").split("::")[-1]))
+    block_scope_order(P, res)
     if takes and not reads:
         res.ok("CONSUME-NEXT-BLOCK", "eval_block moves bindings_next_block out (mem::take) before binding its entries")
     else:
